@@ -784,6 +784,10 @@ class Hooks:
     def loop_tag(self, fname):
         return ascii_name(fname)
 
+    def loop_body_ok(self, body_text):
+        """the index list / bounds of a loop are evaluated once at loop entry: the body must not change what they depend on"""
+        return True
+
     def while_true(self, X, env, body, rest, ret):
         raise OutOfGrammar("while (true) loop")
 
@@ -867,8 +871,13 @@ class Exec:
         rest = lambda e: self.block(stmts, i + 1, e, k, ret)
         tag = s[0]
         if tag == "block":
-            # C++ scoping of the inner declarations is not tracked: inner names must not shadow (checked by fresh cells per name)
-            return self.block(s[1], 0, env, rest, ret)
+            # the declarations of the inner scope end with it: the continuation sees the outer names only (with their new values)
+            def leave(e2, outer=env):
+                e3 = outer.copy()
+                for n in outer.cells:
+                    e3.cells[n] = e2.cells[n]
+                return rest(e3)
+            return self.block(s[1], 0, env, leave, ret)
         if tag == "block_flat":
             return self.block(s[1], 0, env, rest, ret)
         if tag == "return":
@@ -1180,7 +1189,15 @@ class Exec:
             _, var, lo, hi, body = s
             if tag == "for_down":
                 lo, hi = hi, lo
+            save_b = u.reads
+            u.reads = []
             a, b = self.ex(lo, env), self.ex(hi, env)
+            bound_reads = [n for n in env.cells if env.cells[n].val in u.reads]
+            if save_b is not None:
+                for r in u.reads:
+                    if r not in save_b:
+                        save_b.append(r)
+            u.reads = save_b
             ity = "N"
             bs = coerce(b, "N", self.what)
             if a[0] == "L" and a[2] == 0:
@@ -1203,6 +1220,8 @@ class Exec:
         names = self.ordered(env, changed - {var})
         if not names:
             return rest(env)
+        if tag in ("for_up", "for_down") and [n for n in bound_reads if n in names and env.get(n).ty != "ST"]:
+            raise OutOfGrammar("%s: the bounds of a for loop depend on a variable its body assigns" % self.what)
         # state parameters of the step function
         inner2 = inner.copy()
         sids = []
@@ -1227,6 +1246,8 @@ class Exec:
         bodyx = self.block(body, 0, inner2, tup, lret)
         reads = u.reads
         u.reads = save
+        if not u.h.loop_body_ok(bodyx):
+            raise OutOfGrammar("%s: a loop body changes what its index list / bounds were computed from" % self.what)
         caps = [n for n in env.cells if env.cells[n].val in reads and n not in names]
         kind = {"for_range": "for", "for_up": "for", "for_down": "for"}.get(tag) or u.h.loop_tag(s[1])
         u.loops[kind] = u.loops.get(kind, 0) + 1
